@@ -48,6 +48,7 @@ type run struct {
 	stuck      bool
 	inTx       bool
 	stalled    map[*simmongo.Pending]int // database commands the simulated database is slow to answer
+	storm      map[string]bool           // clients that re-send a refused request without end: their requests are no longer delivered
 	evOwners   map[int][]string          // event index -> owners (calls) of its exchange
 	cmdNames   map[string][]string       // owner -> names of its database commands in order
 }
@@ -128,7 +129,7 @@ func Execute(t *testing.T, plan *kernel.Plan, known map[string]bool, verbose boo
 		res:   &kernel.Result{Faults: map[string]int{}, Probes: map[string]int{}},
 		trace: kernel.NewHasher(), slog: kernel.NewHasher(), states: map[uint64]bool{},
 		lagging: map[string]bool{}, bgDone: map[string]int{}, insertedBy: map[string]string{}, cmdNo: map[string]int{}, stalled: map[*simmongo.Pending]int{},
-		evOwners: map[int][]string{}, cmdNames: map[string][]string{}}
+		evOwners: map[int][]string{}, cmdNames: map[string][]string{}, storm: map[string]bool{}}
 	finish := func() {
 		r.res.Violation = r.viol
 		r.res.Steps = r.decisions
@@ -318,6 +319,9 @@ func (r *run) items(f *focus) []item {
 	w := r.w
 	var out []item
 	for _, c := range w.tr.byState("queued") {
+		if r.storm[c.client] {
+			continue
+		}
 		if f.all || f.calls[c] {
 			out = append(out, item{kind: "req", key: fmt.Sprintf("%04d", c.id), c: c})
 		}
@@ -624,6 +628,7 @@ func (r *run) checkErrorPacks(c *call) {
 func (r *run) pump(f *focus, g *kernel.Rng, faults []MongoFault, stopAnswered bool, respMode string) {
 	w := r.w
 	idle := 0
+	released := map[string]int{}
 	for guard := 0; guard < 4000; guard++ {
 		synctest.Wait()
 		its := r.items(f)
@@ -693,6 +698,16 @@ func (r *run) pump(f *focus, g *kernel.Rng, faults []MongoFault, stopAnswered bo
 		case "req":
 			r.logf("  deliver request %s %s of %s", callOwner(it.c), it.c.method, it.c.client)
 			r.trace.Str("req").Str(it.c.method)
+			released[it.c.client]++
+			if released[it.c.client] > 150 && !r.storm[it.c.client] {
+				// A (realtime) client keeps re-sending a request the server keeps refusing, as fast as the
+				// answers come (see DESIGN §10-24). The run would never become quiet: from here on this
+				// client's requests stay in the network. What it has (not) achieved is judged by the
+				// end-state oracles as for everybody else.
+				r.storm[it.c.client] = true
+				r.probe("request-storm")
+				r.logf("  %s re-sends a refused request without end: its requests are no longer delivered", it.c.client)
+			}
 			r.release(it.c)
 		case "cmd":
 			if r.ownerAnswered(it.p.Owner) {
